@@ -16,10 +16,13 @@ from pyxsym.sym import s_and, s_or, s_not, s_log, ite, is_sym, CFault, Sym
 REPLAY = ("replay_drivers.ssa", "replay")
 
 
+_SYMS = {}
+
+
 def _report(c, cond, label, sig=None, syms=None):
     ok = c.prove(cond, label, info={"sig": sig or label, "what": label})
     if ok is False:
-        c.failures[-1]["replay"] = {"kind": "ssa"}
+        c.failures[-1]["replay"] = {"kind": "ssa", "values": model_env(c, c.failures[-1]["model"], dict(_SYMS))}
     return ok
 
 
@@ -36,6 +39,8 @@ def step_job(interp, c, case, rules=False):
     dt = c.real("dt", lo=0, lo_strict=True)
     c.assume(t0 <= grid[0])
     sim = AbsSim(c, S, R, x0, U, D, t0, dt)
+    _SYMS.clear()
+    _SYMS["dt"] = dt
     x0_orig, p_orig = list(x0), list(sim.params)
     if rules:
         sim.havoc_rules()          # rules are an arbitrary map of the state
@@ -94,6 +99,7 @@ def step_job(interp, c, case, rules=False):
     Lam = 0
     for aj in a:
         Lam = Lam + aj
+    _SYMS["Lam"] = Lam
     draws = list(c.draws)
     if Lam == 0:
         fired, t_new, rs_new, used = False, grid[ci], 1, 0
